@@ -21,6 +21,17 @@
           any number of inputs                             PROVED  [C11_base_found]
           (for >= 3 inputs the commit that is found need not be common: clause (c))
 
+    Queue operations used by negotiation (C08 finder, C09 client session):
+    (f) PopUntil b returns b exactly when b is reachable and not yet popped, having popped a
+        prefix of the walk that ends at b; otherwise EOF with everything reachable popped
+                                                           PROVED  [C11_pop_until], [C11_queue_inv_init]
+    (g) RemoveAncestors(sums) leaves exactly the queue elements, in order, that are not
+        ancestors-or-self of a commit in sums (the shared, progressively consumed q2 loses
+        nothing: what it has popped stays in its seen set)
+                                                           PROVED  [C11_remove_ancestors]
+        (validated first on the Go code: all DAGs <= 5 x 4 regimes x all root subsets x
+         0..3 pops x all sums subsets = 9.7M calls, no counterexample)
+
     "Whatever the commit timestamps say": the positive theorems quantify over EVERY
     placement function [ins] used by Insert and every initial ordering [srt] used by
     Reset that return permutations; [C11_go_placement] shows that the time-ordered
@@ -97,6 +108,64 @@ Theorem C11_base2_correct : forall (g : graph) ins srt,
   (seek_common_ancestor g ins srt [a; b] = SNotFound /\ forall z, ~ common_ancestor g [a; b] z).
 Proof. exact Ancestor_proofs.seek2_correct. Qed.
 Print Assumptions C11_base2_correct.
+
+(** (f) queue states: [q_inv g roots q] (proofs/Queue_proofs.v) is the worklist invariant of a
+    queue walking the history below [roots]: items and seen duplicate free, items included in
+    seen, every seen commit present and reachable from the roots, the roots seen, and the
+    parents of every popped commit (popped = seen and no longer queued, [popped_of]) seen.
+    NewCommitsQueue establishes it with nothing popped; PopUntil (below) and
+    PopInsertParents ([Queue_proofs.pop_step]) preserve it. *)
+Theorem C11_queue_inv_init : forall (g : graph) srt,
+  (forall l, Permutation (srt l) l) ->
+  forall roots q, new_queue g srt roots = Ok q ->
+  q_inv g roots q /\ q_meas g q = length g /\
+  (forall x, In x (q_seen q) <-> In x roots) /\ (forall x, ~ popped_of q x).
+Proof. exact Queue_proofs.new_queue_inv. Qed.
+Print Assumptions C11_queue_inv_init.
+
+(** (f) PopUntil b from any such queue state, for any placement.  Let l be the walk continued
+    from that state (PopInsertParents until EOF): l is duplicate free and consists of the
+    reachable commits not yet popped.  Then either b occurs in l = l1 ++ b :: l2 (i.e. b is
+    reachable and not yet popped): PopUntil returns b, has popped exactly l1 ++ [b], and the
+    walk continued afterwards is l2; or b does not occur: PopUntil returns EOF, has popped all
+    of l and left the queue empty.  No error either way. *)
+Theorem C11_pop_until : forall (g : graph) ins,
+  (forall c q, Permutation (ins c q) (c :: q)) ->
+  forall roots q b, q_inv g roots q -> complete g roots ->
+  exists l, walk_loop g ins (walk_fuel g) q [] = (0%nat, l) /\ NoDup l /\
+    (forall x, In x l <-> reach g roots x /\ ~ popped_of q x) /\
+    ((exists l1 l2 q', l = l1 ++ b :: l2 /\ ~ In b l1 /\
+        pop_until g ins (walk_fuel g) q b = Ok (Some b, q', l1 ++ [b]) /\ q_inv g roots q' /\
+        (forall y, popped_of q' y <-> popped_of q y \/ In y (l1 ++ [b])) /\
+        (forall fuel', (q_meas g q' < fuel')%nat -> walk_loop g ins fuel' q' [] = (0%nat, l2))) \/
+     (~ In b l /\ exists q', pop_until g ins (walk_fuel g) q b = Ok (None, q', l) /\
+        q_items q' = [] /\ q_inv g roots q' /\
+        (forall y, popped_of q' y <-> popped_of q y \/ In y l))).
+Proof. exact Queue_proofs.pop_until_spec. Qed.
+Print Assumptions C11_pop_until.
+
+(** (g) RemoveAncestors(sums) on ANY queue q (no invariant needed on q), for any placement and
+    ordering used by the internal queue q2: no error when the history below sums is complete;
+    the remaining items are the original items, order preserved, that are not ancestors-or-self
+    of a commit in sums; the seen set of q is unchanged. *)
+Theorem C11_remove_ancestors : forall (g : graph) ins srt,
+  (forall c q, Permutation (ins c q) (c :: q)) -> (forall l, Permutation (srt l) l) ->
+  forall sums q, complete g sums ->
+  exists q', remove_ancestors g ins srt q sums = Ok q' /\
+    q_items q' = filter (fun x => negb (reachb g sums x)) (q_items q) /\
+    q_seen q' = q_seen q /\
+    (forall x, In x (q_items q') <-> In x (q_items q) /\ ~ reach g sums x).
+Proof. exact Queue_proofs.remove_ancestors_spec. Qed.
+Print Assumptions C11_remove_ancestors.
+
+(** non-vacuity for (f), (g) on P <- A <- M, B = merge(M, P) *)
+Theorem C11_queue_nonvacuous :
+  exists q, t_new_queue ex_ff [3] = Ok q /\
+    t_pop_until ex_ff q 1 = Ok (Some 1, mk_cq [0] [1; 0; 2; 3], [3; 2; 1]) /\
+    t_pop_until ex_ff q 7 = Ok (None, mk_cq [] [1; 0; 2; 3], [3; 2; 1; 0]) /\
+    t_remove_ancestors ex_ff (mk_cq [3; 2; 1] [1; 2; 3]) [2] = Ok (mk_cq [3] [1; 2; 3]).
+Proof. exact Ancestor_proofs.ex_queue_facts. Qed.
+Print Assumptions C11_queue_nonvacuous.
 
 (** the time-ordered placement (sort.Search on commit times) and newest-first ordering of
     the Go code are permutations for every assignment of times: the theorems above apply to
